@@ -184,10 +184,13 @@ def oom_matrix(tier):
                             seed_off=1, workers=1, extra=["--mode", "oom", "--rounds", "6"]))
             runs.append(Run(p, name="oom-small", heap=heap if p == "NoGC" else 8, sems="0,2", seed_off=2,
                             workers=4, extra=["--mode", "oom", "--rounds", "4"]))
+    # dynamic heap size (MemBalancer): requests between the current and the maximum heap size are
+    # not "larger than the maximum heap"
+    for p in (["Immix", "SemiSpace", "GenCopy"] if tier == "quick" else [q for q in PLANS if q != "NoGC"]):
+        runs.append(Run(p, name="oom-dyn", heap=16, sems="0,2", seed_off=3,
+                        extra=["--mode", "oom", "--rounds", "2" if tier == "quick" else "5",
+                               "--trigger", "DynamicHeapSize:3m,16m"]))
     # recorded defects, exercised on purpose
-    runs.append(Run("SemiSpace", name="oom-bigovercommit-probe", heap=16, sems="0,2",
-                    extra=["--mode", "oom", "--rounds", "2", "--bigovercommit"],
-                    known_key="big-overcommit:large-object-space-corruption"))
     runs.append(Run("NoGC", name="oom-hugesize-probe", heap=64, sems="0",
                     extra=["--mode", "oom", "--rounds", "1", "--hugesize"],
                     known_key="NoGC:size>=2^63:address-overflow"))
@@ -238,7 +241,8 @@ def execute(ctx, runs, prefixes, par_run=6, par_tlc=6, spec=None):
         if rc != 0 and not has_crash:
             what = "hang (no progress within the time limit)" if rc == -9 else "process died rc=%s" % rc
             tail = re.sub(r"[^\x20-\x7e]", " ", o[-300:])
-            lines.append(json.dumps({"ev": "Crash", "msg": what + " " + tail, "loc": "process", "th": -1}))
+            lines.append(json.dumps({"ev": "Crash", "msg": what + " " + tail, "loc": "process", "th": -1},
+                                    separators=(",", ":")))
         # The same process trace also carries scheduler/page-resource events for other
         # specifications; HeapTrace (and Trace_AllocOpts) get the projection on the events they
         # consume (dropping whole events, nothing else).
